@@ -1,5 +1,5 @@
 """C03 - a container used only through its API is never internally damaged."""
-from .. import families, gen, hist
+from .. import families, gen, hist, minidb
 from ..runner import rng_for
 
 ID = 'C03'
@@ -23,6 +23,8 @@ EVENTS = ['leaf_split', 'interior_split', 'root_split', 'unlink_first',
 def must_see(tier):
     m = {'structure-checks': 1000}
     for impl in ('c', 'py'):
+        m[impl + ':stored:sweep'] = 300
+        m[impl + ':stored:commit'] = 300
         for e in EVENTS:
             m['%s:%s' % (impl, e)] = 1
     return m
@@ -56,10 +58,46 @@ def run_shard(spec, rec):
             if h % 9 != 8:
                 sizes = gen.NODE_SIZES[h % len(gen.NODE_SIZES)]
                 via_sub = (h % 2 == 1)
+            # every fourth history: the tree lives in a database, is
+            # committed and swept between calls - a change that is not
+            # registered is lost at the next sweep and the reloaded node no
+            # longer fits its neighbours
+            stored = h % 4 == 2
+            container = None
+            if stored:
+                via_sub = False
+                container = hist.make_container(fam, kind, impl, sizes, False)
+                conn = minidb.Connection(minidb.Storage(), impl)
+                conn.log_events = False
+                conn.add(container)
+                conn.commit()
             ls = hist.LockStep(fam, kind, impl, rng, rec, sizes=sizes,
                                via_subclass=via_sub, structure=True,
                                adversarial=0.45, read_ops=(h % 3 == 0),
-                               judge=False)
+                               judge=False, container=container)
+            if stored:
+                state = {'stop': False}
+
+                def sweep_hook(ls_, op, args, conn=conn, state=state,
+                               rng=rng):
+                    if state['stop']:
+                        return True
+                    w = ls_.walk
+                    if w is not None and w.inline_nonroot:
+                        # (F22 shape: committing it stores a damaged
+                        # database, C04's and C06's finding)
+                        return True
+                    r = rng.random()
+                    if r < 0.3:
+                        conn.commit()
+                        rec.ev(impl + ':stored:commit')
+                        if minidb.embedded_but_leaf_has_oid(conn, ls_.c):
+                            state['stop'] = True      # F34 condition
+                    elif r < 0.6:
+                        conn.cache.minimize()
+                        rec.ev(impl + ':stored:sweep')
+                    return True
+                ls.hooks_after.append(sweep_hook)
             n = rng.randint(60, 200) if sizes else rng.randint(30, 60)
             if not sizes:
                 # default sizes: a big update() so that real splits happen
